@@ -79,10 +79,16 @@ func c07Run(w *Worker, t *c07Text, rep *Report, bad *[]*Finding) {
 	if t.FontKind == "TEST" {
 		fontID = "TEST"
 	}
+	two := t.FontKind == "two-fonts"
+	if two {
+		fn = w.E.Func(HzPkg, "Format2")
+		fontID = "f2"
+	}
 	stopped := false
 	body := func(c *interp.Ctx) {
 		wv := map[string]interp.SymInt{}
 		var keys, widths []interp.Value
+		var widths1 []interp.Value
 		var defaultW interp.SymInt
 		for i, s := range syms {
 			v := c.NewInt(fmt.Sprintf("w%d", i))
@@ -94,6 +100,11 @@ func c07Run(w *Worker, t *c07Text, rep *Report, bad *[]*Finding) {
 			}
 			keys = append(keys, s)
 			widths = append(widths, v)
+			if two {
+				v1 := c.NewInt(fmt.Sprintf("v%d", i))
+				c.Assume(fmt.Sprintf("(and (>= %s 0) (<= %s 100000))", v1.T, v1.T))
+				widths1 = append(widths1, v1)
+			}
 		}
 		if t.HasDefault {
 			defaultW = wv[syms[len(syms)-1]]
@@ -104,7 +115,12 @@ func c07Run(w *Worker, t *c07Text, rep *Report, bad *[]*Finding) {
 		ov := c.NewInt("overlap")
 		nl := c.NewInt("numLines")
 		c.Assume(fmt.Sprintf("(and (>= %s (- 5)) (<= %s 1000000) (>= %s 0) (<= %s 100000) (>= %s 1) (<= %s 4))", maxW.T, maxW.T, ov.T, ov.T, nl.T, nl.T))
-		res := w.E.Call(c, fn, src, interp.MkSlice(keys...), interp.MkSlice(widths...), maxW, ov, nl, fontID, t.FontKind != "unknown")
+		var res interp.Value
+		if two {
+			res = w.E.Call(c, fn, src, interp.MkSlice(keys...), interp.MkSlice(widths1...), interp.MkSlice(widths...), maxW, ov, nl)
+		} else {
+			res = w.E.Call(c, fn, src, interp.MkSlice(keys...), interp.MkSlice(widths...), maxW, ov, nl, fontID, t.FontKind != "unknown")
+		}
 		tup := interp.Tuple(res)
 		c.User["done"] = true
 		if stopped {
@@ -264,6 +280,21 @@ func c07Native(w *Worker, t *c07Text, syms []string, model map[string]string, sr
 	fonts := map[string]interface{}{}
 	if t.FontKind != "unknown" {
 		fonts[fontID] = map[string]interface{}{"widths": widths}
+	}
+	if t.FontKind == "two-fonts" {
+		w1 := map[string]int{}
+		for i, s := range syms {
+			if n, ok := get(fmt.Sprintf("v%d", i)); ok {
+				w1[s] = int(n)
+			}
+		}
+		fonts["f1"] = map[string]interface{}{"widths": w1}
+		req := NativeReq{Op: "format2", Src: src, Font: map[string]interface{}{"defaultFontId": "f1", "fonts": fonts}, MaxWidth: int(mw), Overlap: int(ov), NumLines: int(nl)}
+		resp, timedOut, err := w.N.Do(req, 10*time.Second)
+		if err != nil || timedOut || resp.Panic != "" || resp.IsErr {
+			return resp.Panic + resp.Err, false
+		}
+		return resp.Out, true
 	}
 	req := NativeReq{Op: "format", Src: src, Font: map[string]interface{}{"defaultFontId": fontID, "fonts": fonts}, FontID: fontID, MaxWidth: int(mw), Overlap: int(ov), NumLines: int(nl)}
 	resp, timedOut, err := w.N.Do(req, 10*time.Second)
@@ -579,6 +610,13 @@ func RunC07(env *Env, rep *Report) {
 		texts = append(texts, &c)
 	}
 	texts = append(texts, &c07Text{Words: []string{"a", "bb"}, Joints: []string{" "}, FontKind: "unknown"})
+	// one FontConfig, two fonts: the same text (with control codes) formatted
+	// under font f1 first must not influence its formatting under font f2
+	for _, t := range c07Texts(3, []string{"{P}a", "b", "{P}{Q}"}, []string{" ", `\N`}) {
+		c := *t
+		c.FontKind = "two-fonts"
+		texts = append(texts, &c)
+	}
 	for _, t := range texts {
 		if t.FontKind == "" {
 			t.FontKind = "table"
